@@ -23,18 +23,24 @@ CONSTANTS Gen,        \* operands offered to the product actions
 VARIABLES q, R, depth
 vars == <<q, R, depth>>
 
-AllMulRoutes  == {"product", "mul", "matmul", "q_prod", "mult_L", "mult_R", "rotate_by"}
+AllMulRoutes  == {"product", "mul", "matmul", "q_prod", "q_prod[int-left]", "mult_L", "mult_R", "rotate_by"}
 AllDcmRoutes  == {"Quaternion.to_DCM", "QuaternionArray.to_DCM", "DCM(q=)", "DCM.from_quaternion",
                   "DCM.from_quaternion[batch]", "q2R.v1", "q2R.v2", "q2R.v1[batch]", "q2R.v2[batch]",
                   \* the same quaternion held by an object in scalar-last storage, directly and through derived objects
-                  "Quaternion[S].to_DCM", "neg(Quaternion[S]).to_DCM", "Quaternion[S].copy.to_DCM", "Quaternion[S].view.to_DCM"}
-AllRotRoutes  == {"Quaternion.rotate", "q_rot", "sandwich", "Quaternion[S].copy.rotate"}
-AllConjRoutes == {"conjugate", "conj", "q_conj", "q_conj[batch]", "array_conjugate", "inverse", "Quaternion[S].copy.conjugate"}
+                  "Quaternion[S].to_DCM", "neg(Quaternion[S]).to_DCM", "Quaternion[S].copy.to_DCM", "Quaternion[S].view.to_DCM",
+                  \* a live object overwritten in place through its array interface; an integer-valued quaternion handed over as integers
+                  "Quaternion[rewritten].to_DCM", "DCM(q=)[int-list]"}
+AllRotRoutes  == {"Quaternion.rotate", "q_rot", "sandwich", "Quaternion[S].copy.rotate", "Quaternion[rewritten].rotate"}
+AllConjRoutes == {"conjugate", "conj", "q_conj", "q_conj[batch]", "array_conjugate", "inverse", "Quaternion[S].copy.conjugate", "Quaternion[rewritten].conjugate"}
 (* which routes a configuration distinguishes: all of them when behaviours are   *)
 (* generated for replay, one when only the laws are model-checked                *)
 CONSTANTS MulRoutes, DcmRoutes, RotRoutes, ConjRoutes
 CONSTANTS QuatMethods      \* matrix -> quaternion methods offered to ToQuat (C02)
-Dispatchers == {"DCM.to_quaternion", "Quaternion(dcm=)", "QuaternionArray(DCM=)", "function"}
+(* "[F-order]" / "[transposed-view]": the same matrix handed over in column-major memory (np.asfortranarray, the .T of its transpose) *)
+Dispatchers == {"DCM.to_quaternion", "Quaternion(dcm=)", "QuaternionArray(DCM=)", "function",
+                "DCM.to_quaternion[transposed-view]", "Quaternion(dcm=)[F-order]", "QuaternionArray(DCM=)[F-order]", "function[F-order]",
+                \* the array dispatcher called as a method (returns the rows) and through the constructor without re-normalisation
+                "QuaternionArray.from_DCM(inplace=False)", "QuaternionArray(DCM=, versors=False)"}
 
 (* reduce a matrix register to lowest terms so that the state space closes *)
 RedMat(num, den) ==
